@@ -37,6 +37,11 @@ class P(ServeProp):
             tg = rnd.choice(inroot) if inroot and rnd.random() < 0.6 else rnd.choice(["/new.txt", "/", "/sub/", "/file-upload/initiate?name=a&lastModified=1&size=3",
                                                                                  "/form-multipart-enctype-post-method", "/uploads/x.bin", "/a.txt"])
             meth = rnd.choice(["PUT", "DELETE", "PATCH", "POST", "POST", "MKCOL", "put", "TRACE", "CONNECT"])
+            if rnd.random() < 0.25:
+                # the upload-initiate demo echoes its parameters: names of files that exist, that do not, that climb out; every size incl. 0
+                nm = (rnd.choice(inroot).lstrip("/") if inroot and rnd.random() < 0.5 else rnd.choice(["new.bin", "sub/new.bin", "../outside.txt", "..%2Fup.txt", "index.html", "", "a b.txt", "/abs.txt"]))
+                tg = "/file-upload/initiate?name=%s&lastModified=%s&size=%s" % (nm, rnd.choice(["1", "0", "1700000000000", "x"]), rnd.choice(["0", "1", "3", "2147483648", "-1", "", "x"]))
+                meth = "POST"
             bd = "--B1"
             body = rnd.choice([b"", b"new content", bytes(rnd.randrange(256) for _ in range(50)),
                                (bd + '\r\nContent-Disposition: form-data; name="file"; filename="a.txt"\r\nContent-Type: text/plain\r\n\r\nOVERWRITE\r\n' + bd).encode(),
